@@ -124,9 +124,6 @@ def conclude(prop, tier, seed, results, extras, wall, partial=False):
             cl = o["name"].rsplit("/", 1)[1]
             if cl[:1] == "C" and cl[3:4] == ":" and cl[:3] != prop:
                 continue          # clause that belongs to another property's check
-            if prop == "C02" and r.get("module") == "contracts.c01_simplifier" and not cl.startswith("C02:") \
-                    and not cl.startswith("requires:") and cl != "no-exception":
-                continue
             nob += 1
             fe["obligations"] += 1
             solver_s += o.get("time", 0)
